@@ -138,6 +138,9 @@ type c16FS struct {
 	failRead  int
 	failWrite int
 	// failOp/failPath: the named operation ("open", "readdir", "mkdir", "openfile") on that path fails
+	// store: how many leading bytes of a file Read/Write move per call (>= the longest file of the
+	// harness; lengths are always tracked exactly). Keeps the per-call formulas small.
+	store    int
 	failOp   string
 	failPath string
 	mkdirs   []string
@@ -147,7 +150,7 @@ type c16FS struct {
 }
 
 func c16NewFS(tag string, root *c16Node) *c16FS {
-	return &c16FS{root: root, tag: tag, maxCall: 8, failRead: -1, failWrite: -1}
+	return &c16FS{root: root, tag: tag, maxCall: 8, failRead: -1, failWrite: -1, store: c16Cap}
 }
 
 // c16Handle is an open file or directory.
@@ -255,7 +258,7 @@ func (h *c16Handle) Read(p []byte) (int, error) {
 		}
 		return n, nil
 	}
-	vp.Assume(h.n.size <= c16Cap) // only the first c16Cap bytes of a file are stored
+	vp.Assume(h.n.size <= h.fs.store) // only the first bytes of a file are stored
 	n := vp.IteInt(len(p) < rem, len(p), rem) & 31
 	if h.fs.chunked {
 		c := int(vp.U8(h.tag+".r"+string(rune('0'+k))) & 31)
@@ -264,8 +267,8 @@ func (h *c16Handle) Read(p []byte) (int, error) {
 		n = c
 	}
 	m := len(p)
-	if m > c16Cap {
-		m = c16Cap
+	if m > h.fs.store {
+		m = h.fs.store
 	}
 	q := p[:m]
 	pos := h.pos
@@ -311,7 +314,7 @@ func (h *c16Handle) Write(p []byte) (int, error) {
 	// the length is tracked exactly; only the first c16Cap bytes are stored (a correct copy of a
 	// source of at most c16Cap bytes never writes beyond them)
 	pos := h.pos
-	for i := 0; i < c16Cap; i++ {
+	for i := 0; i < h.fs.store; i++ {
 		if i < w {
 			if pos+i < c16Cap {
 				h.n.buf[(pos+i)&(c16Cap-1)] = p[i]
